@@ -78,8 +78,11 @@ namespace lang
         }
 
         constexpr fixed_vector(fixed_vector<value_type>&& v)
-        : capacity_(v.capacity_), data_(std::move(v.data_))
+        : size_(v.size_), capacity_(v.capacity_), data_(std::move(v.data_))
         {
+            // the moved-from vector stays usable: empty, with the same capacity
+            v.size_ = 0;
+            v.data_ = std::make_unique<value_type[]>(v.capacity_);
         }
 
         constexpr fixed_vector operator=(const fixed_vector& v)
@@ -266,7 +269,7 @@ namespace lang
 
         constexpr iterator begin() noexcept
         {
-            return &data_[0];
+            return data_.get();
         }
 
         constexpr reverse_iterator rbegin() noexcept
@@ -276,7 +279,7 @@ namespace lang
 
         constexpr iterator end() noexcept
         {
-            return &data_[size_];
+            return data_.get() + size_;
         }
 
         constexpr reverse_iterator rend() noexcept
@@ -286,7 +289,7 @@ namespace lang
 
         constexpr const_iterator begin() const noexcept
         {
-            return &data_[0];
+            return data_.get();
         }
 
         constexpr const_reverse_iterator rbegin() const noexcept
@@ -296,7 +299,7 @@ namespace lang
 
         constexpr const_iterator end() const noexcept
         {
-            return &data_[size_];
+            return data_.get() + size_;
         }
 
         constexpr const_reverse_iterator rend() const noexcept
@@ -306,7 +309,7 @@ namespace lang
 
         constexpr const_iterator cbegin() const noexcept
         {
-            return &data_[0];
+            return data_.get();
         }
 
         constexpr const_reverse_iterator crbegin() const noexcept
@@ -316,7 +319,7 @@ namespace lang
 
         constexpr const_iterator cend() const noexcept
         {
-            return &data_[size_];
+            return data_.get() + size_;
         }
 
         constexpr const_reverse_iterator crend() const noexcept
